@@ -127,7 +127,7 @@ def serialize(inp):
     from spec.crc import crc_bytes
     p = bytes.fromhex(inp["payload"])
     try:
-        m = RTCMMessage(payload=p)
+        m = RTCMMessage(payload=p, labelmsm=inp.get("labelmsm", 1))
     except BaseException as e:  # noqa
         return {"fails": False, "expected": None, "observed": f"constructor raised {type(e).__name__}"}
     head = b"\xd3" + bytes([len(p) // 256, len(p) % 256]) + p
@@ -137,7 +137,7 @@ def serialize(inp):
         obs = ("ok", obs[1].hex())
     if exp == obs:
         # round trips
-        m2 = outcome(RTCMReader.parse, bytes.fromhex(obs[1]))
+        m2 = outcome(RTCMReader.parse, bytes.fromhex(obs[1]), labelmsm=inp.get("labelmsm", 1))
         if m2[0] != "ok" or m2[1].payload != p or m2[1].identity != m.identity or m2[1].__dict__ != m.__dict__:
             obs = ("ok", "parse(serialize(m)) differs from m")
         else:
@@ -201,10 +201,10 @@ def parse_static(inp):
 # ---------------------------------------------------------------------------------------
 # reader
 # ---------------------------------------------------------------------------------------
-def _drive(data, cuts, validate, quitonerror, parsed, handler, labelmsm=1, maxsteps=None):
+def _drive(data, cuts, validate, quitonerror, parsed, handler, labelmsm=1, maxsteps=None, as_bytearray=False):
     from pyrtcm import RTCMReader
     from spec.streams import FaultyStream
-    st = FaultyStream(data, cuts)
+    st = FaultyStream(data, cuts, as_bytearray=as_bytearray)
     calls = []
 
     class FalsyHandler(list):  # a callable collector that is empty, hence falsy, when the reader consults it
@@ -243,7 +243,7 @@ def reader_safety(inp):
     data = bytes.fromhex(inp["data"])
     validate, q, parsed, handler = inp.get("validate", 1), inp.get("quitonerror", 1), inp.get("parsed", True), inp.get("handler", False)
     lm = inp.get("labelmsm", 1)
-    events, calls, st = _drive(data, inp.get("cuts", []), validate, q, parsed, handler, labelmsm=lm)
+    events, calls, st = _drive(data, inp.get("cuts", []), validate, q, parsed, handler, labelmsm=lm, as_bytearray=inp.get("bytearray", False))
     last_end = 0
     for ev in events:
         if ev[0] == "nonterminating":
@@ -451,6 +451,11 @@ def make_socket(data, schedule):
                 self.log.append("oserror")
                 raise OSError("reset")
             k = n if ev is None else max(1, min(n, ev))
+            if self.pos >= len(self.data):
+                self.closed_polls = getattr(self, "closed_polls", 0) + 1
+                if self.closed_polls > 500:  # the peer has closed and the caller keeps asking: non-termination (C04)
+                    from spec.streams import ReadBudgetExceeded
+                    raise ReadBudgetExceeded(f"recv() called {self.closed_polls} times after the peer closed")
             d = self.data[self.pos:self.pos + k]
             self.pos += len(d)
             self.log.append(len(d))
@@ -467,6 +472,15 @@ def make_socket(data, schedule):
 @check
 def socket_plain(inp):
     """C11: reads through SocketWrapper return the peer's bytes in order, all-or-nothing, short only after a failed receive."""
+    from pyrtcm.socketwrapper import SocketWrapper
+    try:
+        return _socket_plain(inp)
+    except Exception as e:  # noqa: receive errors are the wrapper's to absorb (a failed receive is reported as a short read)
+        return {"fails": True, "expected": "no exception from read()/readline(): a failed receive is a short read",
+                "observed": f"{type(e).__name__}: {e}"}
+
+
+def _socket_plain(inp):
     from pyrtcm.socketwrapper import SocketWrapper
     data = bytes.fromhex(inp["data"])
     sock = make_socket(data, inp.get("schedule", []))
@@ -487,6 +501,8 @@ def socket_plain(inp):
             if data[len(got):len(got) + len(r)] != r or len(r) not in (0, req) or (len(r) < req and not failed):
                 return {"fails": True, "expected": f"{req} bytes {data[len(got):len(got) + req].hex()} (or b'' after a failed receive)",
                         "observed": f"{r.hex()} recv log {sock.log[before:]}"}
+        if type(r) is not bytes:
+            return {"fails": True, "expected": "an immutable bytes object", "observed": f"{type(r).__name__} (the caller can change it in place)"}
         got += r
     # nothing lost: drain
     sock.sched = []
@@ -507,6 +523,67 @@ def socket_reader(inp):
     a = [r[0] for r in RTCMReader(io.BytesIO(data), quitonerror=0)]
     b = [r[0] for r in RTCMReader(make_socket(data, inp.get("schedule", [])), quitonerror=0, bufsize=inp.get("bufsize", 4096))]
     return {"fails": a != b, "expected": [x.hex()[:20] for x in a][:6], "observed": [x.hex()[:20] for x in b][:6]}
+
+
+@check
+def announced_length(inp):
+    """C06: a payload that is accepted is at least as long as the fields, repeat counts and masks it announces require -
+    the requirement computed from the pinned (standard's) length formulas and the counters the message itself decoded."""
+    from pyrtcm import RTCMMessage
+    from spec import pinned
+    p = bytes.fromhex(inp["payload"])
+    try:
+        m = RTCMMessage(payload=p, labelmsm=inp.get("labelmsm", 1))
+    except BaseException as e:  # noqa
+        return {"fails": False, "observed": f"constructor raised {type(e).__name__}"}
+    ident = m.identity
+    a = m.__dict__
+
+    def count(name, idx):
+        if name.startswith("if "):
+            return 1 if a.get(name[3:]) else 0
+        if name.isdigit():
+            return int(name)
+        if "+" in name:  # the tables' "DF379+1": the counter itself carries one outer group index (nothing is added to its value)
+            name = name.split("+")[0]
+        key = name + "".join("_%02d" % i for i in idx)
+        if key not in a:
+            raise KeyError(key)
+        return a[key]
+    try:
+        if ident in pinned.LENGTHS:
+            hb, groups, _ = pinned.LENGTHS[ident]
+            if any(n.startswith("_") for _, _, inner in groups for n, _ in inner):
+                return {"fails": False, "observed": "length depends on derived counts; not evaluated here"}
+            need = hb
+            for cname, bits, inner in groups:
+                n = count(cname, ())
+                need += n * bits
+                for i in range(1, n + 1):
+                    for iname, ibits in inner:
+                        need += count(iname, (i,)) * ibits
+        elif ident[:3] in pinned.MSM_SIG and len(ident) == 4 and ident[3] in "1234567":
+            lvl = int(ident[3])
+            need = pinned.MSM_HEADER + a["NSat"] * a["NSig"] + pinned.MSM_SAT_BITS[lvl] * a["NSat"] + pinned.MSM_CELL_BITS[lvl] * a["NCell"]
+        else:
+            return {"fails": False, "observed": "no pinned length formula"}
+    except KeyError as e:
+        return {"fails": True, "expected": "every counter of the pinned length formula is an attribute of the message", "observed": f"missing {e}"}
+    return {"fails": 8 * len(p) < need, "expected": f"rejected: {ident} with these counters needs {need} bits", "observed": f"accepted with {8 * len(p)} bits"}
+
+
+@check
+def socket_history(inp):
+    """C13: several socket readers one after the other in one process; each returns what a file holding its own bytes returns."""
+    import io
+    from pyrtcm import RTCMReader
+    for k, (hexdata, sched, bufsize) in enumerate(inp["streams"]):
+        data = bytes.fromhex(hexdata)
+        a = [r[0] for r in RTCMReader(io.BytesIO(data), quitonerror=0)]
+        b = [r[0] for r in RTCMReader(make_socket(data, sched), quitonerror=0, bufsize=bufsize)]
+        if a != b:
+            return {"fails": True, "expected": f"connection {k}: " + str([x.hex()[:20] for x in a][:6]), "observed": [x.hex()[:20] for x in b][:6]}
+    return {"fails": False}
 
 
 def chunked_encode(bodies, comp, upper, zero):
@@ -536,20 +613,29 @@ def chunked(inp):
     bodies = [bytes.fromhex(h) for h in inp["bodies"]]
     comp = inp.get("comp", 0)
     enc = chunked_encode(bodies, comp, inp.get("upper", False), inp.get("zero", True))
+    trunc = inp.get("truncate")  # the peer closes in the middle of the body: whatever complete chunks arrived, then end of data
+    if trunc is not None:
+        enc = enc[:trunc]
     cuts = sorted(set(c for c in inp.get("cuts", []) if 0 < c < len(enc)))
     segs = [b - a for a, b in zip([0] + cuts, cuts + [len(enc)])]
     sock = make_socket(enc, segs)
-    w = SocketWrapper(sock, encoding=1 | comp, bufsize=inp.get("bufsize") or (len(enc) + 10))
+    from spec.streams import ReadBudgetExceeded
     got = b""
     want = b"".join(bodies)
-    for _ in range(len(enc) + len(want) + 10):
-        r = w.read(1)
-        if not r:
-            if sock.pos >= len(enc):
-                break
-            continue
-        got += r
-    return {"fails": got != want, "expected": want.hex()[:80], "observed": got.hex()[:80], "encoded": enc.hex()[:120], "segments": segs}
+    try:
+        w = SocketWrapper(sock, encoding=1 | comp, bufsize=inp.get("bufsize") or (len(enc) + 10))
+        for _ in range(len(enc) + len(want) + 10):
+            r = w.read(1)
+            if not r:
+                if sock.pos >= len(enc):
+                    break
+                continue
+            got += r
+    except ReadBudgetExceeded as e:
+        return {"fails": True, "expected": "read() returns once the peer has closed", "observed": f"does not terminate: {e}",
+                "encoded": enc.hex()[:120], "segments": segs}
+    bad = (not want.startswith(got)) if trunc is not None else got != want
+    return {"fails": bad, "expected": want.hex()[:80], "observed": got.hex()[:80], "encoded": enc.hex()[:120], "segments": segs}
 
 
 @check
